@@ -80,6 +80,10 @@ def better_origin(candidate: object, fallback: object) -> object:
 class ExtractOptions(threading.local):
     with_contexts: bool = cast(bool, None)
     recurse_child_tasks: bool = cast(bool, None)
+    # Where a context hook that is running under fill_context() may leave
+    # errors that it ran into but can't raise, because it still has a
+    # result to deliver; fill_context() reports them when it is done
+    hook_errors: Optional[List[Exception]] = None
 
     @contextmanager
     def push(self, *, with_contexts: bool, recurse_child_tasks: bool) -> Iterator[None]:
@@ -377,7 +381,7 @@ def extract_outermost(
     ):
         errors: List[Exception] = []
         try:
-            return next(extract_iter(stackitem, errors))
+            frame = next(extract_iter(stackitem, errors))
         except StopIteration as ex:
             if len(errors) > 1:  # pragma: no cover
                 # Rationale for 'no cover': as currently written, only one error can
@@ -393,6 +397,12 @@ def extract_outermost(
                     f"Couldn't extract a frame from {stackitem!r}: unwrapping only "
                     f"reached {ex.value!r}"
                 )
+        if errors and current_options.hook_errors is not None:
+            # We have a frame to return, but there were errors on the way to
+            # it. If a context hook is what called us, they can be reported
+            # with the context it is working on.
+            current_options.hook_errors.extend(errors)
+        return frame
 
 
 def extract_since(
@@ -525,6 +535,8 @@ def fill_context(context: Context) -> None:
         return
 
     discarded_errors: List[Exception] = []
+    outer_hook_errors = current_options.hook_errors
+    current_options.hook_errors = discarded_errors
     try:
         for _ in range(100):
             if TYPE_CHECKING:
@@ -556,6 +568,8 @@ def fill_context(context: Context) -> None:
         if not discarded_errors:
             raise
         discarded_errors.append(ex)
+    finally:
+        current_options.hook_errors = outer_hook_errors
     if len(discarded_errors) == 1:
         raise discarded_errors[0]
     if discarded_errors:
